@@ -27,8 +27,8 @@ SPEC = {
                     "pacing is measured where frames are produced; under driver back-pressure frames leave later through the send queue (C11)",
                     "theorems about emitted frames assume a 'quiet' node (device may transmit, queue empty, driver accepts); the "
                     "back-pressure paths are covered by the correspondence run only",
-                    "end-to-end theorems (RTS/CTS and BAM): any number of devices per node, the acting device is device 0 and the others are idle "
-                    "(Lead), the two nodes poll alternately, any delays below the "
+                    "end-to-end theorems (RTS/CTS and BAM): any number of devices per node, any acting device index on either side, the other "
+                    "devices idle (Lead), the two nodes poll alternately, any delays below the "
                     "sender's timeouts (RTS/CTS: < 50 ms before the first CTS, < 100 ms afterwards; BAM: >= 51 ms between the sender's "
                     "polls); idle polls in between are no-ops (poll_idle)",
                     "free receive slots carry TPRequireCTS = 0 (constructor / FreeMessage invariant; hypothesis of the BAM end-to-end theorem)"],
@@ -42,8 +42,8 @@ MANIFEST = {
             "carrying the embedded PGN and the payload, a wrong sequence number frees the slot, sends Abort and delivers nothing; "
             "sessions time out and later transfers start; library sender and library receiver composed over a loss-free in-order "
             "channel complete the transfer with exactly one intact delivery, for RTS/CTS and for BAM, under every poll schedule "
-            "within the timeouts (acting device = device 0 of a node with any number of idle devices, alternating polls: theorems are named "
-            "_partial). Receiver safety over EVERY history (C10_receiver_safe_all_histories, an inductive invariant against the reference "
+            "within the timeouts (any acting device of nodes with any number of otherwise idle devices; strictly alternating polls: theorems "
+            "are named _partial). Receiver safety over EVERY history (C10_receiver_safe_all_histories, an inductive invariant against the reference "
             "bookkeeping Spec.tpTrack): every handler call caused by a transfer has len <= 223, exactly len bytes, all from the in-order "
             "packets of one session of its source/destination/PGN. Correspondence: the real tNMEA2000 (both timer builds) against a scripted reference peer in both "
             "roles (every length, grants 1..255, holds, late answers, aborts, silence, every single dropped/duplicated/reordered "
